@@ -24,6 +24,8 @@ Fv(r, b)  == b[1] * r.x + b[2] * r.z + b[1] * b[2]
 Gv(r, b)  == <<r.x + b[2], r.z + b[1]>>
 Hv(r, b)  == <<<<0, 1>>, <<1, 0>>>>
 Wt(r, weighted) == IF weighted THEN r.w2 ELSE 2
+\* a second, concave model (it can be estimated): f2_r = -(b1 - x_r)^2 - (b2 - z_r)^2
+F2v(r, b) == 0 - (b[1] - r.x) * (b[1] - r.x) - (b[2] - r.z) * (b[2] - r.z)
 
 RECURSIVE SumSeq(_)
 SumSeq(s) == IF s = << >> THEN 0 ELSE Head(s) + SumSeq(Tail(s))
@@ -59,6 +61,11 @@ Emitted == [rows |-> rows,
             per_row |-> [p \in 1..Len(Points) |-> [k \in 1..Len(rows) |-> Fv(rows[k], Points[p])]],
             totals |-> [p \in 1..Len(Points) |->
                           [weighted |-> Totals2(rows, Points[p], TRUE), plain |-> Totals2(rows, Points[p], FALSE)]],
+            \* twice the weighted / plain sum of the concave model at each point: whatever the object did
+            \* before (estimation, bootstrap on re-samples), the likelihood of THE DATA SET is this sum
+            concave |-> [p \in 1..Len(Points) |->
+                          [weighted |-> Over(rows, LAMBDA r : Wt(r, TRUE) * F2v(r, Points[p])),
+                           plain |-> Over(rows, LAMBDA r : Wt(r, FALSE) * F2v(r, Points[p]))]],
             prefix |-> [p \in 1..Len(Points) |-> [k \in 1..Len(rows) |->
                           [weighted |-> Totals2(SubSeq(rows, 1, k), Points[p], TRUE),
                            plain |-> Totals2(SubSeq(rows, 1, k), Points[p], FALSE)]]]]
